@@ -32,6 +32,7 @@ NATIVE_OPAQUE = r'''
 #define __CPROVER_uninterpreted_fm24(x) FM((Z)(x), 24)
 #define __CPROVER_uninterpreted_fd60(x) FD((Z)(x), 60)
 #define __CPROVER_uninterpreted_fm60(x) FM((Z)(x), 60)
+#define __CPROVER_uninterpreted_wday(ord) ((int)WD(ord))
 '''
 
 
